@@ -50,6 +50,10 @@ def specLevel (cfg : Config) (target : Name) : Nat :=
 def specDeliver (cfg : Config) (target : Name) (lvl : Nat) : List Name :=
   if admits (specLevel cfg target) lvl then chain cfg (comps target).length (effective cfg target) else []
 
+/-- C01 with failing appenders: every attachment still gets its delivery; exactly the failing ones report -/
+def specFailures (cfg : Config) (fails : Name → Bool) (target : Name) (lvl : Nat) : List Name :=
+  (specDeliver cfg target lvl).filter fails
+
 /-- C02: enabled ⇔ the effective logger's threshold admits the level -/
 def specEnabled (cfg : Config) (target : Name) (lvl : Nat) : Bool :=
   admits (specLevel cfg target) lvl
